@@ -26,6 +26,12 @@ CHECKS['C02'] = dict(text="Theorems over the Core model for all schedules and co
   "the inputs (exactly once), across lifespan restarts. Tie as for C01 plus the user function's own append-only "
   "invocation log compared as a multiset with the inputs on every run.", ref="5/C02",
   technique="Coq proof (token conservation invariant) + trace conformance + invocation-log oracle")
+CHECKS['C16'] = dict(text="Theorems: (Core, all schedules) with order_tasks the k-th add_task carries chunk k and goes to worker "
+  "k mod n_jobs, and every task is executed by that worker, across lifespan restarts; (history model whose resets and "
+  "assignments are read off pool.py/comms.py) every call numbers its chunks from 0 and uses the value last set by the "
+  "constructor or the setter. Tie: selection kernel and reset/setter bodies regenerated from source, every observed "
+  "add_task replayed through the kernel, end-to-end worker-id-per-task oracle over call histories on 4 start methods.",
+  ref="5/C16", technique="Coq proof (routing invariant over all schedules + induction over call histories) + kernel replay + oracle")
 PENDING = {}
 props = [json.loads(l) for l in open(os.path.join(V, 'properties.jsonl'))]
 m = dict(version=1,
